@@ -131,7 +131,7 @@ PROPS = {
                 "implementation-only oracle: all 65536 half-float codes through R16_FLOAT to U8 and U16 against exact integer arithmetic; distinct = distinct case lines",
         "trusted_base": BASE_TRUST + ["model/Float.v is an executable IEEE-754 model written for this project; it is tied to the hardware arithmetic the implementation runs on by differential execution, and agrees with Flocq's binary32 operations on an in-kernel sample of 3225 operand pairs x 5 operations (coq/tests/FlocqAgreement.v, a test; only that file depends on Flocq's classical axioms)",
                                       "model/Uncomp.v states the documented bit fields, channel orders and defaults; it is the specification of the wiring and is compared with the code on every run"],
-        "assumptions": ["f32 -> U8/U16 (R32*_FLOAT) is proved for every f32 in [0, 2^40) (monotone, every decision boundary within one ULP of the ideal); negative, huge, infinite and NaN inputs and the YUV matrices off the grey axis are modelled and compared only",
+        "assumptions": ["f32 -> U8/U16 (R32*_FLOAT) is proved for EVERY 32-bit pattern (monotone on [0, 2^40) with every decision boundary within one ULP of the ideal; 0 for negative values, -0 and NaN; maximum from 2^40 up and for +infinity); the YUV matrices off the grey axis are modelled and compared only",
                         "non-native channel layouts are C05's subject"],
     },
     "C05": {
@@ -151,7 +151,7 @@ PROPS = {
                 "implementation-only oracles over all 45 non-BC formats: lossless round trips at the native layout where every stored channel holds the input (unstored channels decode to defaults), quantisation error within half a step for UNORM/SNORM fields on random f32 input incl. values outside [0,1], "
                 "and identical encoded bytes for the same pixel values carried as U8 / U16 (x257) / F32 (x/255), as GRAYSCALE / RGB / RGBA, with different row pitches and image shapes; distinct = distinct case lines",
         "trusted_base": BASE_TRUST + ["model/Float.v (executable IEEE-754 model, validated against the hardware by check C04)"],
-        "assumptions": ["dithering is excluded by the property and not modelled", "f32 inputs into every UNORM field (2, 4, 5, 6, 8, 10, 16 bits) are proved for every f32 in [0, 2^40); into SNORM, XR, float and YUV fields, and for negative / huge / non-finite inputs, they are compared with the model on boundary and random values only"],
+        "assumptions": ["dithering is excluded by the property and not modelled", "f32 inputs into the 8- and 16-bit UNORM fields are proved for EVERY 32-bit pattern, into the 2/4/5/6/10-bit UNORM fields and the SNORM8 level for every f32 in [0, 2^40); into SNORM16, XR, float and YUV fields they are compared with the model on boundary and random values only"],
     },
     "C01": {
         "kernel_sample": 10,
